@@ -1,8 +1,10 @@
 import Ebv.Driver.Io
 import Ebv.Model.GenCond
 import Ebv.Model.CondClass
+import Ebv.Props.C03
 /-! Driver for C03: one JSON statement program per line (harness/vh/dsl_cond.py) → the instruction list the model
-`Ebv.Gen.emitCProg` emits (or the error enum), the comparison object trees, and the defect-class names.
+`Ebv.Gen.emitCProg` emits (or the error enum), the comparison object trees, the defect-class names, and
+(after ` # `) whether the program satisfies the decidable hypothesis `Ebv.C03.progOkC` of `C03_partial`.
 `parseView … parseVar` are copies of the parsers in Drivers/C01.lean (a driver file cannot be imported). -/
 open Ebv Ebv.Io Ebv.Ebpf Ebv.Gen Lean
 
@@ -131,6 +133,7 @@ def step (j : Json) : Option String := do
     let env := layout p.vars
     let cls := (progClasses env p.owned p.body).toArray.qsort (· < ·) |>.toList
     pure ("ok " ++ joinSp (code.map showInsn) ++ " | " ++ " ; ".intercalate (condTrees env p.body)
-      ++ " | " ++ (if cls.isEmpty then "-" else ",".intercalate cls))
+      ++ " | " ++ (if cls.isEmpty then "-" else ",".intercalate cls)
+      ++ (if Ebv.C03.progOkC p then " # P" else " # -"))
 
 def main : IO Unit := driverMain step
